@@ -235,32 +235,6 @@ Example positional_entry_flip_witness :
   /\ parse_row rmTN [(s!"m", s!"q;x|foo")] = Ok (rowTN [s!"q"; s!"x"] s!"foo").
 Proof. repeat split; vm_compute; reflexivity. Qed.
 
-(* the short header `message_text` looks the row type up in the RAW `type` cell, whereas the `type`
-   field itself is stripped: a padded type cell works with the long header and fails with the short one *)
-Definition flow_padded_short : list (str * str) :=
-  [(s!"type", s!" send_message"); (s!"message_text", s!"hi"); (s!"from", s!"start")].
-Definition flow_padded_long : list (str * str) :=
-  [(s!"type", s!" send_message"); (s!"mainarg_message_text", s!"hi"); (s!"from", s!"start")].
-Definition flow_unpadded_short : list (str * str) :=
-  [(s!"type", s!"send_message"); (s!"message_text", s!"hi"); (s!"from", s!"start")].
-
-Definition short_header_any_padding_full : Prop :=
-  forall cells cells', same_row (option_map strip (oget str_eqb cells (cx_sw_column flow_cx))) cells cells' ->
-                       flow_parse cells = flow_parse cells'.
-
-Theorem short_header_any_padding_refuted : ~ short_header_any_padding_full.
-Proof.
-  intros H. assert (Hs : flow_parse flow_padded_short = flow_parse flow_padded_long).
-  { apply H. vm_compute. same_row_tac. }
-  vm_compute in Hs. discriminate.
-Qed.
-
-Example padded_type_witness :
-  flow_parse flow_padded_short = Err EKey
-  /\ is_ok (flow_parse flow_padded_long) = true
-  /\ flow_parse flow_padded_long = flow_parse flow_unpadded_short.
-Proof. repeat split; vm_compute; reflexivity. Qed.
-
 (* ---- the positive half: positional = spread whenever the first value is not a field name ---- *)
 Definition no_ws (x : str) : bool := forallb (fun c => negb (is_ws c)) x.
 
